@@ -416,6 +416,10 @@ def ternaries(tier, seed):
         ('pets3', {'kind': 'pets', 'syn': [[3.4, 120.0, 39.9], [3.6, 165.0, 83.8], [3.0, 90.0, 20.0]],
                    'binm': [[None, {'k_ij': 0.01}, {'k_ij': 0.03}], [None, None, {'k_ij': -0.02}], [None, None, None]]}, 150.0, 1000.0),
         ('gcpcsaft3', {'kind': 'gcpcsaft', 'src': src((P + 'gc_substances.json', ['propane', 'butane', 'pentane'])), 'segments': P + 'sauer2014_hetero.json'}, 300.0, 1000.0),
+        # binary *segment* records between groups of different components (>C=O ... OH): ethanol before acetone, so that the
+        # quick permutation [2,0,1] reverses their relative order
+        ('gcpcsaft3_kij', {'kind': 'gcpcsaft', 'src': src((P + 'gc_substances.json', ['ethanol', 'pentane', 'acetone'])), 'segments': P + 'rehner2023_hetero.json',
+                           'binary': P + 'rehner2023_hetero_binary.json'}, 320.0, 1000.0),
         ('pcsaft3_polar', {'kind': 'pcsaft', 'src': src((P + 'gross2006.json', ['acetone']), (P + 'gross2005_fit.json', ['carbon dioxide']), (P + 'gross2001.json', ['propane']))}, 300.0, 1000.0),
         ('pcsaft_2quad', {'kind': 'pcsaft', 'src': src((P + 'gross2005_fit.json', ['carbon dioxide', 'nitrogen']), (P + 'gross2001.json', ['propane']))}, 300.0, 1000.0),
     ]
@@ -434,7 +438,9 @@ def jobs_C02(tier, seed):
     jobs = []
     # cross-association (two self-associating components, iterative site-fraction solver) and an asymmetric 3B scheme
     extra = [('pcsaft_xassoc', {'kind': 'pcsaft', 'src': src((P + 'rehner2020.json', ['water_4C', 'methanol']))}, 2, 350.0, 1000.0),
-             ('pcsaft_assoc3b', {'kind': 'pcsaft', 'src': src((P + 'gross2001.json', ['hexane']), (P + 'rehner2020.json', ['water_3B']))}, 2, 350.0, 1000.0)]
+             ('pcsaft_assoc3b', {'kind': 'pcsaft', 'src': src((P + 'gross2001.json', ['hexane']), (P + 'rehner2020.json', ['water_3B']))}, 2, 350.0, 1000.0),
+             # one self-associating C-type site (nc = 1; no shipped record has one): closed-form C-C path
+             ('pcsaft_csite', {'kind': 'pcsaft', 'src': src(('../../verif/symtrace/params/csite.json', ['acid_one_c_site']), (P + 'gross2001.json', ['heptane']))}, 2, 350.0, 1000.0)]
     for name, spec, n, T, V in systems(tier, seed) + extra:
         jobs.append(('ext/' + name, {'job': 'ext', 'model': spec, 'x': state(n, T, V, seed)}, {'budget_s': 300 if tier == 'quick' else 1800, 'soft': name.endswith('~')}))
     return jobs
@@ -543,7 +549,8 @@ def jobs_C13(tier, seed):
     # 4C + 2B cross-association takes the iterative site-fraction solver at zero density)
     extra = [('pcsaft_assoc3b', {'kind': 'pcsaft', 'src': src((P + 'gross2001.json', ['hexane']), (P + 'rehner2020.json', ['water_3B']))}, 2, 350.0, 1000.0),
              ('pcsaft_3b_pure', {'kind': 'pcsaft', 'src': src((P + 'rehner2020.json', ['water_3B']))}, 1, 400.0, 1000.0),
-             ('pcsaft_xassoc', {'kind': 'pcsaft', 'src': src((P + 'rehner2020.json', ['water_4C', 'methanol']))}, 2, 350.0, 1000.0)]
+             ('pcsaft_xassoc', {'kind': 'pcsaft', 'src': src((P + 'rehner2020.json', ['water_4C', 'methanol']))}, 2, 350.0, 1000.0),
+             ('pcsaft_csite', {'kind': 'pcsaft', 'src': src(('../../verif/symtrace/params/csite.json', ['acid_one_c_site']), (P + 'gross2001.json', ['heptane']))}, 2, 350.0, 1000.0)]
     for name, spec, n, T, V in systems(tier, seed) + extra:
         if 'fun' in name and tier == 'quick':
             continue
@@ -592,7 +599,8 @@ def jobs_C01(tier, seed):
     # cross-association: the site fractions come from an f64 Newton iteration (through .re()) and the derivatives are restored
     # by implicit differentiation (NDERIV Newton steps in dual numbers): the traces differ by construction, the native
     # finite-difference confirmation decides
-    extra = [('pcsaft_xassoc', {'kind': 'pcsaft', 'src': src((P + 'rehner2020.json', ['water_4C', 'methanol']))}, 2, 350.0, 1000.0)]
+    extra = [('pcsaft_xassoc', {'kind': 'pcsaft', 'src': src((P + 'rehner2020.json', ['water_4C', 'methanol']))}, 2, 350.0, 1000.0),
+             ('pcsaft_csite', {'kind': 'pcsaft', 'src': src(('../../verif/symtrace/params/csite.json', ['acid_one_c_site']), (P + 'gross2001.json', ['heptane']))}, 2, 350.0, 1000.0)]
     for name, spec, n, T, V in systems(tier, seed) + extra:
         x = state(n, T, V, seed)
         x2 = state(n, T * 1.13, V * 0.91, seed + 17)
